@@ -533,7 +533,7 @@ def addr_base58_to_pubkeyhash(address, as_hex=False):
     """
 
     try:
-        address = change_base(address, 58, 256, 25)
+        address = change_base(address, 58, 256)
     except EncodingError as err:
         raise EncodingError("Invalid address %s: %s" % (address, err))
     if len(address) != 25:
